@@ -44,6 +44,9 @@ P = {
  "C10": dict(level="other", tech="abstract interpretation with linear forms of BusReader/BusWriter (two offset cells, bank and offset symbolic) and of busWriter.Write (symbolic writer and payload): window start/end terms, guard-implies-bound check on the comparison in force at the copy, progress term restricted to accepted/refused paths, mod-set of the always-error methods",
    text="Window bounds are linear-form identities valid for every bank and offset; the no-silent-partial-write clause is decided as an implication between the guard comparison dominating copy and the remaining-window term; refusal changes nothing by restriction of the gated progress term. What bytes.Reader returns and images shorter than the addressed bank are outside the claim. Two genuine defects (window ends one byte early in reader and writer) are recorded as known findings because a baseline test pins the behaviour.",
    note="Trusted: go/ssa, absint, bytes.Reader, builtin copy; 24-bit bus addresses; len(p) < 2^31.", ref="4 C10"),
+ "C13": dict(level="other", tech="SSA structural rules (dominance of the alignment guards over the single table store, induction variable of Attach's loop, module-wide who-writes-the-table, lock-step induction variables and value identity in EaDump) plus abstract interpretation of the straight-line accessors (slot index term = shr4 of the address term; empty slot panics)",
+   text="Routing is a statement about all Attach histories because the table can only be written by Attach's loop (who-may-write) with index range start>>4..end>>4 after both alignment tests, and every accessor selects the backend by a>>4 of the address it forwards unchanged. EaDump's count and placement follow from lock-step induction variables. The rules are sufficient conditions in the 'index derived from the accessed address' style; a correct chunked implementation would be reported as undecided (DESIGN.md section 6).",
+   note="Trusted: go/ssa, absint. Behaviour of the attached backends themselves is C11's (memory.RAM).", ref="4 C13"),
 }
 reasons_pending = "no check is registered for this property at this commit (machinery not built yet); see DESIGN.md section 4 for the planned static rules"
 
